@@ -1016,6 +1016,9 @@ func c04Replay(raw json.RawMessage) (bool, string) {
 		return false, err.Error()
 	}
 	switch c.What {
+	case "assignable:recv-chan", "assignable:named-slice":
+		b := c04Assignable(strings.TrimPrefix(c.What, "assignable:"), c.Fast, c.Target == 1)
+		return b != "", b
 	case "many":
 		api := "Map"
 		if c.Fast {
